@@ -16,28 +16,42 @@ def run(ctx):
                 cases.append(f['case'])
     else:
         cases = optgen.gen_cases(ctx.seed, ctx.tier)
-        try:
-            bases = [c for c in cases if optgen.stream_of(c[1]) == 'g'][:40]
-            cases += optgen.gen_run_cases(bases)
-        except Exception:
-            pass
     ctx.evaluations = len(cases)
     if not h_ok:
         return
-    impl = vlib.run_impl(cases, 'c19', per_case_s=10.0)
+    # program stream: compaction injected at every step boundary of running programs (implementation-only oracle)
+    run_cases = []
+    if not ctx.replay:
+        base = optgen.run_base_cases()
+        bres = vlib.run_impl(base, 'c19base', per_case_s=10.0)
+        run_cases = optgen.gen_run_cases(optgen.steps_of(bres))
+        if ctx.tier == 'quick':
+            run_cases = run_cases[::3]
+    impl = vlib.run_impl(cases + run_cases, 'c19', per_case_s=10.0)
     model = vlib.run_model(cases, 'c19') if drv_ok else {}
+    ctx.evaluations = len(cases) + len(run_cases)
     streams = {}
-    for c in cases:
+    for c in cases + run_cases:
         st = optgen.stream_of(c[1])
         streams[st] = streams.get(st, 0) + 1
-        ctx.distinct.add(c[2])
-    dis, orc, iso = optgen.compare(cases, impl, model) if drv_ok else ([], [(c[1], c[2], optgen.oracle(impl.get(c[1], 'MISSING'))) for c in cases if optgen.oracle(impl.get(c[1], 'MISSING'))], [])
-    by_id = {c[1]: c for c in cases}
+        ctx.distinct.add('\t'.join(c[2:]))
+    by_id = {c[1]: c for c in cases + run_cases}
+    dis, orc, iso = optgen.compare(cases, impl, model) if drv_ok else ([], [], [])
+    if not drv_ok:
+        for c in cases:
+            f = optgen.oracle_detail(c, impl.get(c[1], 'MISSING'))
+            if f:
+                orc.append((c[1], c[2], f))
+    for c in run_cases:
+        f = optgen.oracle_detail(c, impl.get(c[1], 'MISSING'))
+        if f:
+            orc.append((c[1], c[2], f))
     for cid, script, fails in orc:
         st = optgen.stream_of(cid)
         if st in OUTSIDE:
             continue
-        ctx.fail('oracle', by_id[cid], impl=impl.get(cid, '')[:600], model=None, expect='everything reachable identical before/after', note=f'C19 violated (stream {st}): ' + '; '.join(fails[:4]))
+        cls = '; '.join(str(x[0]) if isinstance(x, (list, tuple)) else str(x) for x in fails[:4])
+        ctx.fail('oracle', by_id[cid], impl=impl.get(cid, '')[:600], model=None, expect='everything reachable identical before/after', note=f'C19 violated (stream {st}): {cls}')
     for cid, script, a, b in dis:
         ctx.fail('corr', by_id[cid], impl=a[:600], model=b[:600], expect=b[:300], note='optimize / clone differ from the Lean model cell by cell (OPT / CLONE suite)')
     for cid, script, verdict, f in iso:
